@@ -171,7 +171,7 @@ def run_one(gname, n, cap, lazy, k, chooser, storage):
             out["demand_checks"] = probe.demand_checks
             out["demand_violations"] = probe.demand_violations[:3]
             sched.abort()
-        left = sched.join_real(10.0)
+        left = sched.join_real(120.0)
         out["stuck_after_abort"] = left
     finally:
         tmb.ThreadedMailboxProcessor.__init__ = orig_init
